@@ -209,6 +209,12 @@ def make_cases(rng, n):
                              'taproot-tweak-pubkey', 'verify-sig', 'verify-sig-compact', 'tagged-hash', 'int', 'reverse', 'len', 'hex', 'prefix-compact-size', 'bech32-encode', 'base58chk-encode'])
             args = [rng.choice(['xyz', '0x', '1', '0', '-1', 'OP_DUP', hex_tok(rb(rng, rng.choice([1, 31, 32, 33, 64, 65]))), '1111111111111111111114oLvT2', 'bc1qw508d6qejxtdg4y5r3zarvary0c5xw7kv8f3t4',
                                '[OP_1 OP_2]', '""' if False else 'a', '9' * 30]) for _ in range(rng.choice([1, 1, 2, 3, 4]))]
+            if rng.random() < 0.25:
+                # checksum-valid encodings with unusual payloads (no data symbols at all, a version symbol only, bits that do not regroup)
+                n5 = rng.choice([0, 0, 1, 2, 3, 8, 9, 33, 53, 54])
+                enc = codec.bech32_encode(rng.choice(['a', 'bc', 'tb', 'bcrt']), [rng.randrange(32) for _ in range(n5)], rng.choice([1, 0x2bc830a3])) if rng.random() < 0.7 else \
+                    codec.b58check_encode(rb(rng, rng.choice([0, 0, 1, 2, 4])))
+                nm, args = rng.choice(['bech32-decode', 'base58chk-decode', 'addr-to-scriptpubkey']), [enc]
             add('%s %s' % (nm, ' '.join(args)), 'adversarial', lambda so, se: None)
     return out
 
@@ -323,7 +329,7 @@ def repl_worker(job):
     btcdeb = os.path.join(bindir, 'btcdeb')
     btcc = os.path.join(bindir, 'btcc')
     try:
-        cases = [c for c in make_cases(rng, n) if c['kind'] != 'adversarial' and len(c['tf']) < 1500][:n]
+        cases = [c for c in make_cases(rng, n) if c['kind'] != 'adversarial' and len(c['tf']) < 900][:n]
         r, segs = proc.repl_session(btcdeb, ['OP_1'], ['tf ' + c['tf'] for c in cases], wd, timeout=120)
         if r.abnormal:
             part.violation('repl:' + r.crash_key('btcdeb'), dict(run=r.brief(), first=cases[0]['tf'][:200] if cases else None))
